@@ -20,7 +20,11 @@ mg = pick(lambda c: c["kind"] == "exact" and c["R"] == 3 and c["M"] == 2 and c["
 mg["id"] = "good-magnified"
 cx = pick(lambda c: c["kind"] == "exact" and c["R"] == 3 and c["M"] == 2 and c["b"] == 0 and c["s"] == 8 and c["p"] == [2, 3, 1])
 cx["id"] = "good-complex"
-good = [ex, ge, me, le, lx, mg, cx]
+z1 = pick(lambda c: c["kind"] == "zeros" and c["R"] == 3 and c["M"] == 2 and c["b"] == 0 and c["z"] == "onemode" and c["p"] == [2, 3, 1])
+z1["id"] = "good-zero-onemode"
+z2 = pick(lambda c: c["kind"] == "zeros" and c["R"] == 3 and c["M"] == 2 and c["b"] == 0 and c["z"] == "row" and c["p"] == [2, 3, 1])
+z2["id"] = "good-zero-row"
+good = [ex, ge, me, le, lx, mg, cx, z1, z2]
 evs, want = list(good), {}
 def swp(l): l[0], l[1] = l[1], l[0]
 def mut(base, name, clause, f):
@@ -44,6 +48,14 @@ mut(mg, "mag-eqw", "PermuteWeights", lambda e: e["permute"][2].__setitem__("eqw"
 mut(cx, "complex-corr", "CorrMax", lambda e: e["corr"].__setitem__("max_score", 250000))
 mut(cx, "complex-stacked", "CorrZeroIffStacked", lambda e: e["corr_swap"].__setitem__("stacked", 90000))
 mut(cx, "complex-extra-cong", "CongForms", lambda e: e["cong"].append({"abs": True, "form": "list", "swap": False, "raised": False, "val": 1000000, "perm": [0, 1, 2]}))
+mut(z1, "zero-nan", "CorrZeroColumnNaN", lambda e: e["corr"][1].update(raised=False, exc="", val=2000000001))
+mut(z1, "zero-silent", "CorrZeroColumnNotRejected", lambda e: e["corr"][2].update(raised=False, exc="", val=250000))
+mut(z1, "zero-wrong-exc", "CorrWrongException", lambda e: e["corr"][3].update(exc="ZeroDivisionError"))
+mut(z1, "zero-stacked-raised", "CorrRaised", lambda e: e["corr"][0].update(raised=True, exc="ValueError"))
+mut(z1, "zero-cong-silent", "CongZeroColumnNotRejected", lambda e: e["cong"][0].update(raised=False, exc="", val=500000, perm=[0, 1, 2]))
+mut(z1, "zero-permute-silent", "PermuteZeroColumnNotRejected", lambda e: e["permute"][0].update(raised=False, exc="", perm=[0, 1, 2]))
+mut(z2, "zero-row-value", "CorrMax", lambda e: [r.__setitem__("val", r["val"] + 9) for r in e["corr"] if r["method"] == "max_score" and not r["swap"]])
+mut(z2, "zero-row-raised", "CorrRaised", lambda e: e["corr"][5].update(raised=True, exc="ValueError"))
 mut(ge, "gen-val", "CongValueOfPerm", lambda e: e["cong"][0].__setitem__("val", e["cong"][0]["val"] + 60))
 mut(ge, "gen-corr", "CorrStacked", lambda e: e["corr"].__setitem__("stacked", e["corr"]["stacked"] + 10))
 mut(ge, "gen-corravg", "CorrAvg", lambda e: e["corr"].__setitem__("avg_score", e["corr"]["avg_score"] + 10))
